@@ -1,4 +1,5 @@
 import NumbatModel.Lemmas.Types
+import NumbatModel.Lemmas.TypesCanon
 /-!
 # C02 — static checking accepts exactly the dimensionally consistent programs
 
@@ -76,6 +77,56 @@ factor through the computed substitution -/
 theorem solve_characterises_solutions {n : Nat} {cs : List Constraint} (hcs : ∀ c ∈ cs, c.dimOnly = true)
     {σ : Subst} {dv : List TV} (h : solve n cs = .ok σ dv) (θ : Val) : HoldsAll θ cs ↔ Ext θ σ :=
   ⟨solve_principal hcs h θ, solve_sound hcs h θ⟩
+
+/-- **Completeness (no solvable system is rejected).**  Let the constraints be in the fragment and well formed
+(`Constraint.wf P`: every factor list is in canonical form — which `canon`, hence every `DType` constructor,
+guarantees, see `canon_isCanon` — and its type parameters are among `P`).  If *some* valuation that keeps the
+type parameters `P` rigid (each its own independent axis: the function must work for every choice of them)
+satisfies all constraints, then `solve` does not fail: it never reports `couldNotSolve`, never a substitution
+error, never takes a panicking branch.  Named `_partial` because termination of the loop is not proved: the
+statement is "for every fuel the result is `ok` or `outOfFuel`" (the driver runs with fuel 100000 and has
+never run out). -/
+theorem solve_complete_partial (P : String → Prop) {cs : List Constraint}
+    (hcs : ∀ c ∈ cs, c.dimOnly = true) (hwf : ∀ c ∈ cs, c.wf P)
+    (θ : Val) (hr : Rigid θ P) (hθ : HoldsAll θ cs) (n : Nat) :
+    (∃ σ dv, solve n cs = .ok σ dv) ∨ solve n cs = .outOfFuel :=
+  solveLoop_complete P n cs [] hcs hwf rfl θ hr hθ (ext_nil θ)
+
+/-- non-vacuity of `solve_complete_partial`: `T = Length` is in the fragment, well formed, and satisfied by the
+valuation that maps every variable to `Length` (no type parameters, so rigidity is vacuous) -/
+example : let cs := [Constraint.equal (.tvar (.quant 0)) (.dim [(.base "Length", 1)])]
+    (∀ c ∈ cs, c.dimOnly = true) ∧ (∀ c ∈ cs, c.wf (fun _ => False)) ∧
+    ∃ θ : Val, Rigid θ (fun _ => False) ∧ HoldsAll θ cs := by
+  refine ⟨by simp [Constraint.dimOnly, Ty.isTD], ?_, fun _ => unitVec (.base "Length"), ?_, ?_⟩
+  · intro c hc
+    simp at hc; subst hc
+    refine ⟨trivial, ⟨by simp [StrictSorted], by simp⟩, ?_⟩
+    intro p hp n hn; simp at hp; subst hp; simp at hn
+  · intro n hn; exact absurd hn id
+  · intro c hc
+    simp at hc; subst hc
+    simp only [Holds, tyVal]
+    funext a
+    simp only [dVal, dValAt, factorVal]
+    grind
+
+/-- the canonical form used by `solve_complete_partial` is what `DType::canonicalize` produces: strictly
+increasing factors (type variables first, no duplicates) and no zero exponent -/
+theorem canonicalize_is_canonical (fs : Factors) : Canon (canon fs) := canon_isCanon fs
+
+/-- a constraint `try_satisfy` gives up on (other than `IsDType` of a variable) has no solution that keeps
+the type parameters rigid: the only such constraints in the fragment are `EqualScalar d` with `d` non-empty
+and free of type variables -/
+theorem stuck_constraint_unsatisfiable (P : String → Prop) (θ : Val) (hr : Rigid θ P) {c : Constraint}
+    (hc : c.dimOnly = true) (hwf : c.wf P) (hs : c.trySatisfy = .none) (hv : c.dtypeVar = none) :
+    ¬ Holds θ c := by
+  obtain ⟨f, e, rest, hceq, hft⟩ := stuck_shape hc hs hv
+  subst hceq
+  exact stuck_unsat θ P hr (hwf : DWf P _).1 (hwf : DWf P _).2 hft
+
+/-- non-vacuity of `stuck_constraint_unsatisfiable`: `Length · D⁻¹ = 1` (D a type parameter) is stuck -/
+example : (Constraint.equalScalar [(.base "Length", 1), (.tpar "D", -1)]).trySatisfy = .none := by
+  simp [Constraint.trySatisfy]
 
 /-- non-vacuity of the hypotheses of `solve_sound`/`solve_principal`: a two-constraint system of the fragment
 on which the loop runs two substitution steps and succeeds -/
